@@ -67,6 +67,11 @@ def gen(ctx):
 
 
 def evaluate(ctx, cases):
+    # every spelling: the composed lexer / literal-decoding / parser model compiles the text to the query the
+    # implementation compiles it to
+    import jsonpath as _jp
+    from .. import lexcorr
+    lexcorr.run_compile(ctx, _jp.DEFAULT_ENV, [c["text"] for c in cases if isinstance(c.get("text"), str)])
     import jsonpath
 
     reqs, meta = [], []
